@@ -17,11 +17,12 @@ let pr_fname = function
   | NOther z -> pr_int 5; pr_z z
 let rd_fscfg () =
   let ext = rd_bool () in let c = rd_nat () in let dedup = rd_bool () in let nl = rd_nat () in
-  let decoys = rd_bool () in let app = rd_bool () in let glob = rd_bool () in
+  let decoys = rd_bool () in let app = rd_bool () in let glob = rd_bool () in let prot = rd_bool () in
   let colls = rd_list (fun () -> let p = rd_z () in let rows = rd_list rd_cfrow () in
-                                 { fc_pfx = p; fc_rows = rows }) () in
+                                 let pr = rd_opt (rd_pair (rd_list rd_z) (rd_list rd_cfrow)) () in
+                                 { fc_pfx = p; fc_rows = rows; fc_prot = pr }) () in
   { fg_ext = ext; fg_c = c; fg_dedup = dedup; fg_nlevels = nl; fg_decoys = decoys; fg_append = app;
-    fg_glob = glob; fg_colls = colls }
+    fg_glob = glob; fg_proteins = prot; fg_colls = colls }
 let rd_crow () = let r = rd_cfrow () in let q = rd_q () in (r, q)
 let () =
   reg "c09.run" (fun () ->
